@@ -182,3 +182,30 @@ Definition atoms_for (all : list (N * (bytes * N))) (sidx : N) : list (bytes * N
 
 (* atoms of string [sidx]: (atom bytes, backtrack) *)
 Definition atoms_of (cr : crules) (sidx : N) : list (bytes * N) := atoms_for (all_atoms cr) sidx.
+
+(* ---- every DECLARE_REFERENCE field of the table structs is registered for relocation (or holds the
+   NULL reference): the per-image certificate for "every pointer was registered" (C08) *)
+Definition reloc_key (r : N * N) : N := fst r * 4294967296 + snd r.
+Definition reloc_set (a : arena) : imap bool :=
+  fold_left (fun m r => PositiveMap.add (N.succ_pos (reloc_key r)) true m) (relocs a) (PositiveMap.empty bool).
+
+Definition table_refs_ok (a : arena) (rs : imap bool) (sec_id : Z) (struct_size : Z) (ref_offsets : list Z) : bool :=
+  let tbl := sec a sec_id in
+  let n := (length tbl / zn struct_size)%nat in
+  forallb (fun k =>
+    forallb (fun ro =>
+      let off := N.of_nat (k * zn struct_size + zn ro) in
+      imap_get rs (reloc_key (Z.to_N sec_id, off)) false ||
+      is_null_ref (ref_at tbl (N.to_nat off)) ||
+      (u_at tbl (N.to_nat off) 8 =? 0) ||   (* an unregistered NULL pointer stays NULL *)
+      (u_at tbl (N.to_nat off) 8 =? 18085043209519168250)   (* 0xFA filler of the terminating null rule / external *)
+    ) ref_offsets) (seq 0 n).
+
+Definition layout_cert (a : arena) : bool :=
+  let rs := reloc_set a in
+  table_refs_ok a rs YR_NAMESPACES_TABLE sizeof_YR_NAMESPACE refs_YR_NAMESPACE &&
+  table_refs_ok a rs YR_RULES_TABLE sizeof_YR_RULE refs_YR_RULE &&
+  table_refs_ok a rs YR_METAS_TABLE sizeof_YR_META refs_YR_META &&
+  table_refs_ok a rs YR_STRINGS_TABLE sizeof_YR_STRING refs_YR_STRING &&
+  table_refs_ok a rs YR_EXTERNAL_VARIABLES_TABLE sizeof_YR_EXTERNAL_VARIABLE refs_YR_EXTERNAL_VARIABLE &&
+  table_refs_ok a rs YR_AC_STATE_MATCHES_POOL sizeof_YR_AC_MATCH refs_YR_AC_MATCH.
